@@ -61,7 +61,12 @@ func (jr *JSONResource) Load() ([]byte, error) {
 
 		return nil, err
 	}
-	firstRune := string(bytes.TrimSpace(data)[0])
+	trimmed := bytes.TrimSpace(data)
+	if len(trimmed) == 0 {
+
+		return nil, errors.New("invalid JSON input")
+	}
+	firstRune := string(trimmed[0])
 
 	var ruleSet string
 
